@@ -136,6 +136,13 @@ def run_sessions(ctx, rnd, n, versions, tag, nreaders=4, force_logs=False):
     for oid, clause in rej:
         script, blobs = info[oid]
         cl, _, at = clause.partition('@')
+        # clause ownership: the metadata sections are C03's, the thread / process tables C02's and C03's; C16 pins what the
+        # log records decode to (the yields)
+        meta = ('trace_codes', 'kernel_extensions', 'dyld_modules', 'processes', 'images')
+        tabs = ('request-changed-tables', 'tables-of-some-reader-object')
+        if (ctx.prop == 'C02' and cl in meta) or (ctx.prop == 'C16' and cl in meta + tabs):
+            ctx.extra['deviations_left_to_other_checks'] = ctx.extra.get('deviations_left_to_other_checks', 0) + 1
+            continue
         ctx.violation('%s/readers/%s' % (ctx.prop, cl), 'reader session %s: %s at action %s; script: %s'
                       % (oid, cl, at, ' ; '.join(script)[:1500]),
                       {'kind': 'readers', 'clause': clause, 'script': script, 'files_hex': [b.hex() for b in blobs]})
